@@ -427,7 +427,9 @@ class ANMLGrammar:
             | standalone_timed_expression
         )
 
-        anml_body = OneOrMore(Group(anml_stmt - Suppress(TK_SEMI)))
+        # ZeroOrMore: the ANMLWriter prints no statement for a problem without
+        # declarations, and a file that holds only comments is a valid (empty) problem.
+        anml_body = ZeroOrMore(Group(anml_stmt - Suppress(TK_SEMI)))
         anml_body.ignore(TK_COMMENT - rest_of_line)
 
         self._problem = anml_body
